@@ -120,20 +120,27 @@ def runTimeMachine (inst : Instance) (cfg : SMConfig) (s : State) : TimeMachine 
 
 /-! ## validate -/
 
-/-- `is_machine_transition_valid` -/
-def machineTransitionValid (s : State) (m : MachineState) (tr : Transition) : Except Err Bool := do
-  let allowed := match tr.new with
-    | .m ns => machineValid m.st ns
-    | .t ns => machineValidX m.st ns
-  if !allowed then return false
-  if m.st == .outage && tr.new == .m .idle then return true
-  if m.st == .working && tr.new == .m .outage then return true
-  match tr.job with
-  | some jid =>
+/-- table lookup of `MachineTransition().is_valid_transition` for either kind of new state -/
+def machineAllowed (st : MSt) (new : NewSt) : Bool :=
+  match new with
+  | .m ns => machineValid st ns
+  | .t ns => machineValidX st ns
+
+/-- the job check of `is_machine_transition_valid` -/
+def machineJobCheck (s : State) (m : MachineState) (job : Option Nat) : Except Err Bool :=
+  match job with
+  | some jid => do
     let j ← getJob s.jobs jid
     let op ← j.nextNotDone
     pure (op.machine == m.id)
   | none => pure true
+
+/-- `is_machine_transition_valid` -/
+def machineTransitionValid (s : State) (m : MachineState) (tr : Transition) : Except Err Bool :=
+  if !machineAllowed m.st tr.new then pure false
+  else if m.st == .outage && tr.new == .m .idle then pure true
+  else if m.st == .working && tr.new == .m .outage then pure true
+  else machineJobCheck s m tr.job
 
 /-- `is_transport_transition_valid` -/
 def transportTransitionValid (t : TransportState) (tr : Transition) : Bool :=
